@@ -24,6 +24,10 @@ type Emulator struct {
 	// State must be synchronized with Step method calls. Any violation of
 	// this synchronization might result in undefined behaviour.
 	State *state.State
+
+	// accessErr is the first invalid memory access found during evaluation
+	// of the current instruction.
+	accessErr error
 }
 
 // New creates new emulator instance.
@@ -73,6 +77,17 @@ func (e *Emulator) MustIP() model.Addr {
 	return ip
 }
 
+// checkMemRange checks that w bytes at address addr end before the end of the
+// address space.
+func checkMemRange(addr model.Addr, w expr.Width) error {
+	if end := addr + model.Addr(w); end < addr {
+		return fmt.Errorf(
+			"memory access of %d bytes at address 0x%x exceeds the address space",
+			w, addr)
+	}
+	return nil
+}
+
 // instruction returns instruction currently pointer by the instruction pointer.
 func (e *Emulator) instruction(ip model.Addr) (deps.Instruction, error) {
 	block, ok := e.code.Address(ip)
@@ -104,6 +119,22 @@ func (e *Emulator) Step() (*Step, error) {
 	efs = exprtransform.EffectsApply(efs, func(ex expr.Expr) expr.Expr {
 		return e.eval(ex, s)
 	})
+
+	// Memory access which doesn't fit the address space cannot be
+	// represented by memory, so it has to be refused before any effect is
+	// applied.
+	if err := e.accessErr; err != nil {
+		e.accessErr = nil
+		return nil, err
+	}
+	for _, ef := range efs {
+		if mStore, ok := ef.(expr.MemStore); ok {
+			addr, _ := expr.ConstUint[model.Addr](mStore.Addr().(expr.Const))
+			if err := checkMemRange(addr, mStore.Width()); err != nil {
+				return nil, err
+			}
+		}
+	}
 
 	var jumped bool
 	for _, ef := range efs {
@@ -234,6 +265,13 @@ func (e *Emulator) evalMemoryFully(ex expr.Expr, s *Step) expr.Expr {
 		// all registers are already evaluated -> this MUST be constant.
 		addrConst := exprtransform.ConstFold(curr.Addr()).(expr.Const)
 		addr, _ := expr.ConstUint[model.Addr](addrConst)
+
+		if err := checkMemRange(addr, w); err != nil {
+			if e.accessErr == nil {
+				e.accessErr = err
+			}
+			return expr.NewConst(nil, w), true
+		}
 
 		val := e.memValue(key, addr, w)
 		s.memRead(key, addr, val)
